@@ -17,7 +17,8 @@ META = {
                'request state; a failed or timed-out request changes neither the clock nor the last-sync data; a valid response is '
                'applied with the value read and resets the period; both waits compare milliseconds with period*1000; the back-off '
                'never exceeds the sync period nor overflows 16 bits; no use of a null reference/backup clock; timestamps are '
-               'written on every path into a state that reads them',
+               'written on every path into a state that reads them; a request is only given up on a path that asked '
+               'isResponseReady() first',
     'not_decided': 'quantitative timing along interleavings of time steps and reference-clock behaviours (bounded-depth schedules)',
     'assumptions': ['clang 14 parser', 'loop() is the only writer of the request status'],
 }
